@@ -147,6 +147,7 @@ func runC11(t *testing.T, c SstCase) *kit.Result {
 		}
 
 		// ---------------- exact read-back (no faults)
+		var blockEnds []int
 		exact := func() {
 			r, err := sstable.OpenReader(path)
 			if err != nil {
@@ -154,9 +155,35 @@ func runC11(t *testing.T, c SstCase) *kit.Result {
 				return
 			}
 			defer r.Close()
+			// where the data blocks end, as the table's own index says
+			if locs, err := r.FindBlockForKey(ents[0].key); err == nil {
+				blockEnds = blockEnds[:0]
+				for _, l := range locs {
+					blockEnds = append(blockEnds, int(l.Offset)+int(l.Size))
+				}
+			}
 			it := r.NewIterator()
 			i := 0
+			// in a third of the tables the reader also serves point lookups and a
+			// second iterator while the scan is under way (one Reader, as in the engine)
+			mixed := prng.Bool(0.33)
+			var side *sstable.Iterator
 			for it.SeekToFirst(); it.Valid(); it.Next() {
+				if mixed && i%7 == 3 {
+					j := prng.Intn(len(ents))
+					if v, err := r.Get(ents[j].key); err != nil || (ents[j].val == nil) != (v == nil) || !bytes.Equal(v, ents[j].val) {
+						fail(&kit.Violation{Kind: "get", Signature: "sst-get-during-scan", Detail: fmt.Sprintf("Reader.Get(%s) during a scan of the same table = %s, %v; written %s", kit.Q(ents[j].key), kit.Q(v), err, describeSstEntry(ents[j]))})
+						return
+					}
+					if side == nil {
+						side = r.NewIterator()
+					}
+					if k := prng.Intn(len(ents)); !side.Seek(ents[k].key) || entryAt(side, ents[k]) != "" {
+						fail(&kit.Violation{Kind: "seek", Signature: "sst-seek-during-scan", Detail: fmt.Sprintf("a second iterator's Seek(%s) during a scan of the same table: %s", kit.Q(ents[k].key), entryAt(side, ents[k]))})
+						return
+					}
+					res.Probe("lookups_during_a_scan")
+				}
 				if i >= len(ents) {
 					fail(&kit.Violation{Kind: "iterate", Signature: "sst-iterate-extra", Detail: fmt.Sprintf("iteration yields more than the %d entries written; entry %d has key %s", len(ents), i, kit.Q(it.Key()))})
 					return
@@ -187,6 +214,7 @@ func runC11(t *testing.T, c SstCase) *kit.Result {
 				return
 			}
 			// Seek probes
+			var reused *sstable.Iterator
 			for p := 0; p < c.Probes && res.V == nil; p++ {
 				var target []byte
 				kind := prng.Pick(5, 3, 2, 2, 1, 1, 2)
@@ -219,7 +247,17 @@ func runC11(t *testing.T, c SstCase) *kit.Result {
 					target = ents[j].key
 				}
 				want := find(target)
-				it3 := r.NewIterator()
+				// an iterator is either fresh or the one the previous probes left
+				// wherever they ended (after a Seek and a Next, at the last entry, exhausted)
+				if reused == nil || prng.Bool(0.5) {
+					reused = r.NewIterator()
+				} else {
+					res.Probe("seeks_on_a_used_iterator")
+					if prng.Bool(0.2) {
+						reused.SeekToLast()
+					}
+				}
+				it3 := reused
 				ok := it3.Seek(target)
 				if want == len(ents) {
 					if ok || it3.Valid() {
@@ -353,6 +391,13 @@ func runC11(t *testing.T, c SstCase) *kit.Result {
 				for p := 0; p < 24; p++ {
 					add(p)
 				}
+				// the trailers of up to six data blocks (restart table, counts, checksum)
+				for n := 0; n < 6 && len(blockEnds) > 0; n++ {
+					end := blockEnds[prng.Intn(len(blockEnds))]
+					for p := end - 24; p < end; p++ {
+						add(p)
+					}
+				}
 				for len(positions) < c.Corrupt {
 					add(prng.Intn(fileSize))
 				}
@@ -362,7 +407,7 @@ func runC11(t *testing.T, c SstCase) *kit.Result {
 					break
 				}
 				old := data[p]
-				nv := []byte{old ^ (1 << uint(prng.Intn(8))), 0x00, 0xff, old + 1}[prng.Intn(4)]
+				nv := []byte{old ^ (1 << uint(prng.Intn(8))), 0x00, 0xff, old + 1, old - 1}[prng.Intn(5)]
 				if nv == old {
 					nv = old ^ 0x80
 				}
@@ -455,6 +500,6 @@ func TestC11(t *testing.T) {
 			return out
 		},
 		Strip: func(c SstCase) any { d := c; d.Sched = kit.Sched{}; return d },
-		Rule:  "generated strictly ascending entry sets (1-6000 entries, shared prefixes up to 200 bytes, value classes up to 40KB, tombstones, empty values, arbitrary sequence numbers) written by sstable.Writer to the simulated disk and read by OpenReader: forward iteration, SeekToLast, ~40 Seek targets (present / just below / just above / proper prefix / before first / after last / restart-interval neighbours) each followed by Next, ~40 point lookups (present and absent); a share of cases repeats reading under injected read errors and under single-byte corruption of the stored file (300 sampled positions incl. footer/index, or all positions for small files in the thorough tier): whatever is yielded must have been written. evaluations = read-backs",
+		Rule:  "generated strictly ascending entry sets (1-6000 entries, shared prefixes up to 200 bytes, value classes up to 40KB, tombstones, empty values, arbitrary sequence numbers) written by sstable.Writer to the simulated disk and read by OpenReader: forward iteration, SeekToLast, ~40 Seek targets (present / just below / just above / proper prefix / before first / after last / restart-interval neighbours) each followed by Next, ~40 point lookups (present and absent); half of the Seek probes reuse the iterator the previous probes left somewhere; in a third of the tables point lookups and a second iterator's seeks are interleaved with the forward scan on the same Reader; a share of cases repeats reading under injected read errors and under single-byte corruption of the stored file (300 sampled positions incl. footer/index and the last 24 bytes of up to six data blocks located through the table's own index; bit flip, 0x00, 0xff, +1 or -1; or all positions for small files in the thorough tier): whatever is yielded must have been written. evaluations = read-backs",
 	})
 }
